@@ -250,6 +250,16 @@ func (s *Server) serve(node string, nl *lease.NodeLeaser, w http.ResponseWriter,
 		case r.Method == http.MethodPut && q.Get("release") != "":
 			s.count("PUT kv?release")
 			writeJSON(w, true)
+		case r.Method == http.MethodDelete && !isCluster:
+			// Consul deletes a key whoever holds the lock on it (locks are advisory).
+			// The lease lapses; if the key was another node's, that node's lease has
+			// just been destroyed by this one: noted for the observer.
+			s.count("DELETE kv/primary")
+			if holder, id := s.svc.Holder(); holder != "" && holder != node {
+				s.svc.Note(node, "foreign-key-delete", id, "holder:"+holder)
+			}
+			s.svc.Expire()
+			writeJSON(w, true)
 		default:
 			s.count("other kv")
 			http.Error(w, "unsupported", 400)
